@@ -66,6 +66,41 @@ def read_doc(path_or_text, is_path):
         return json.load(f)
 
 
+SHARED_META = {}
+
+
+def consuming(deser):
+    """a de-serialisation mapper that empties the entry dict after it has built the data object"""
+    def mapper(parent, data):
+        obj = deser(parent, dict(data))
+        data.clear()
+        return obj
+
+    return mapper
+
+
+def short_ser(m):
+    def ser(node, data):
+        r = m.ser(node, data)
+        if r is None:
+            return None
+        for long, short in (("o", "i"), ("type", "s"), ("name", "k")):
+            r[short] = r.pop(long)
+        return r
+
+    return ser
+
+
+def short_deser(m):
+    def deser(parent, data):
+        d = dict(data)
+        if "i" in d and "o" not in d:
+            d["o"] = d.pop("i")
+        return m.deser(parent, d)
+
+    return deser
+
+
 def one_case(ctx, out, cfg, spec, tree, cls, km_name, vm_name, compression, use_path, tmpdir, counter):
     pool = ctx.pool
     typed = isinstance(tree, TypedTree)
@@ -76,11 +111,23 @@ def one_case(ctx, out, cfg, spec, tree, cls, km_name, vm_name, compression, use_
     value_map = S.VALUE_MAPS[vm_name]
     if isinstance(value_map, dict):
         value_map = dict(value_map)
-    meta = {"foo": "bar", "n": next(counter)}
-    kw = dict(meta=dict(meta), key_map=key_map, value_map=value_map)
+    # ONE caller-owned metadata dict is re-used for all saves (as an application would): save() must neither keep state in
+    # it (maps of an earlier call) nor hand a header with foreign entries to the next call
+    SHARED_META.update({"foo": "bar", "n": next(counter)})
+    meta = dict(SHARED_META)
+    kw = dict(meta=SHARED_META, key_map=key_map, value_map=value_map)
+    # mapper styles (callback mappers): std; `consuming` = the de-serialisation mapper empties the entry dict it was given
+    # (everything the loader needs from the entry must have been read before); `short` = the mapper's own fields are called
+    # i / s / k (only legitimate when no key map is in use: nothing may be renamed on load then)
+    style = ["std", "consuming", "std", "short"][next(counter) % 4]
+    if style == "short" and not (km_name == "off" and needs_mapper and not derived):
+        style = "std"
+    if style == "consuming" and not ((needs_mapper and not derived) or (typed and not needs_mapper)):
+        style = "std"
     if needs_mapper and not derived:
-        kw["mapper"] = m.ser
-    case = dict(cfg=cfg, spec=spec, key_map=km_name, value_map=vm_name, compression=repr(compression), path=use_path)
+        kw["mapper"] = m.ser if style != "short" else short_ser(m)
+    case = dict(cfg=cfg, spec=spec, key_map=km_name, value_map=vm_name, compression=repr(compression), path=use_path, mapper_style=style)
+    out.dist["mapper_style:" + style] += 1
     ser = adapter.Serials()
     tj = adapter.tree_json(tree, ser, pool)
     before = S.tree_shape(tree, pool)
@@ -101,6 +148,9 @@ def one_case(ctx, out, cfg, spec, tree, cls, km_name, vm_name, compression, use_
         doc = None
     if S.tree_shape(tree, pool) != before:
         out.fail(case, "save() changed the tree")
+    if SHARED_META != meta:
+        out.fail(case, f"save() changed the caller's metadata dict: {SHARED_META} (was {meta})")
+        SHARED_META.clear()
     if r_save != "ok":
         out.fail(case, f"save({km_name}, {vm_name}, compression={compression!r}, path={use_path}) raised {r_save}")
         return
@@ -110,13 +160,15 @@ def one_case(ctx, out, cfg, spec, tree, cls, km_name, vm_name, compression, use_
     md = ctx.driver.ask(req)
     if "fail" in md:
         raise core.MachineryError(f"driver: {md}")
-    if md.get("ok") != doc:
+    if md.get("ok") != doc and style != "short":
         out.disagree(case, f"saved document differs from the model's: impl {json.dumps(doc)[:300]} model {json.dumps(md.get('ok'))[:300]}")
     # load
     load_cls = cls or (TypedTree if typed else Tree)
     lkw = {}
     if needs_mapper and not derived:
-        lkw["mapper"] = m.deser
+        lkw["mapper"] = {"std": m.deser, "consuming": consuming(m.deser), "short": short_deser(m)}[style]
+    elif style == "consuming" and typed and not needs_mapper:
+        lkw["mapper"] = consuming(lambda parent, data: data["str"])
     fm = {}
     try:
         if use_path:
@@ -143,6 +195,8 @@ def one_case(ctx, out, cfg, spec, tree, cls, km_name, vm_name, compression, use_
             t2._self_check()
         except Exception as e:  # noqa
             out.fail(case, f"_self_check of the loaded tree: {e!r}")
+    if style == "short":
+        return   # the model's mappers use the field names o / type / name: oracle only
     # model load of the implementation's document
     ml = ctx.driver.ask({"op": "ser.load", "doc": doc, "typed": typed, "deser": ("o" if needs_mapper else ("str" if typed else "none"))})
     if "fail" in ml:
